@@ -372,5 +372,173 @@ pub fn rand_tx(rng: &mut Rng, g: &OpGen, max_ops: usize, uniq: &mut u64, p_topo:
     let n = 1 + rng.below(max_ops);
     let ops: Vec<Op> = (0..n).map(|_| if rng.chance(p_topo) { g.topo(rng) } else { g.data(rng, uniq) }).collect();
     let all_force = ops.iter().all(crate::ops::has_force_form);
-    Tx { runner: rand_runner(rng, n, all_force), ops, f1: vec![], f2: vec![] }
+    Tx { runner: rand_runner(rng, n, all_force), ops, f1: vec![], f2: vec![], f1_attempt: 0 }
+}
+
+// ------------------------------------------------------------------------------- kernels
+
+/// Consistent anchors on a mesh: boundary vertices on a curve (a few of them nodes), interior
+/// vertices on the surface, boundary edges on the curve, interior edges and faces on the surface.
+pub fn fill_anchors(rng: &mut Rng, s: &mut State) {
+    let (pv, pe, pf) = (s.partition(0), s.partition(1), s.partition(2));
+    let n = s.n() as u32;
+    let mut boundary_vertex = vec![false; s.n()];
+    for d in 1..n {
+        if s.unused[d as usize] || s.is_free(d) {
+            continue;
+        }
+        if s.b(2, d) == 0 {
+            boundary_vertex[pv[d as usize] as usize] = true;
+            let nx = s.b(1, d);
+            if nx != 0 {
+                boundary_vertex[pv[nx as usize] as usize] = true;
+            }
+        }
+    }
+    let p_node = [0.0, 0.15, 0.4][rng.below(3)];
+    for d in 1..n {
+        if s.unused[d as usize] || s.is_free(d) {
+            continue;
+        }
+        if mask_has(s.kinds, K_VA) && pv[d as usize] == d {
+            s.attrs[K_VA][d as usize] = Some(if boundary_vertex[d as usize] {
+                if rng.chance(p_node) { u64::from(d) } else { (1 << 32) | 1 }
+            } else {
+                (2 << 32) | 1
+            });
+        }
+        if mask_has(s.kinds, K_EA) && pe[d as usize] == d {
+            s.attrs[K_EA][d as usize] = Some(if s.b(2, d) == 0 { (1 << 32) | 1 } else { (2 << 32) | 1 });
+        }
+        if mask_has(s.kinds, K_FA) && pf[d as usize] == d {
+            s.attrs[K_FA][d as usize] = Some((2 << 32) | 1);
+        }
+    }
+}
+
+pub fn rand_kinds_kernels(rng: &mut Rng) -> KindMask {
+    let anchors: KindMask = (1 << K_VA) | (1 << K_EA) | (1 << K_FA);
+    match rng.below(6) {
+        0 => 0,
+        1 => anchors,
+        2 => (1 << K_WV) | (1 << K_WE),
+        3 => anchors | (1 << K_WV),
+        4 => (1 << K_TV) | (1 << K_WV) | (1 << K_TE),
+        _ => anchors | (1 << K_WV) | (1 << K_WE),
+    }
+}
+
+/// A mesh state suited to the kernels: (split) grid with perturbed vertices, spare free darts,
+/// user attribute values on every cell, consistent anchors when registered.
+pub fn kernel_state(rng: &mut Rng, kinds: KindMask, triangles: bool, max_n: usize) -> State {
+    let (nx, ny) = (1 + rng.below(max_n), 1 + rng.below(max_n));
+    let mesh = grid_mesh(rng, nx, ny, triangles, 0.3);
+    let extra = 6 + rng.below(8);
+    let (mut s, _) = state_from_mesh(&mesh, kinds, extra);
+    let mut pow = 0u32;
+    for k in mask_kinds(kinds) {
+        if kind_is_anchor(k) {
+            continue;
+        }
+        let part = s.partition(kind_orbit(k));
+        let p = [0.6, 1.0, 1.0][rng.below(3)];
+        for d in 1..s.n() as u32 {
+            if !s.is_free(d) && part[d as usize] == d && rng.chance(p) {
+                s.attrs[k][d as usize] = Some(rand_attr(rng, k, &mut pow));
+            }
+        }
+    }
+    fill_anchors(rng, &mut s);
+    if rng.chance(0.1) {
+        // an undefined vertex somewhere
+        let d = 1 + rng.below(s.n() - 1);
+        s.vtx[d] = None;
+    }
+    s
+}
+
+/// A kernel call with plausible arguments on `s` (free darts as spares, real edges and faces).
+pub fn kernel_op(rng: &mut Rng, s: &State, which: Option<usize>) -> Option<Op> {
+    let n = s.n() as u32;
+    let free: Vec<u32> = (1..n).filter(|&d| !s.unused[d as usize] && s.is_free(d)).collect();
+    let linked: Vec<u32> = (1..n).filter(|&d| !s.unused[d as usize] && !s.is_free(d)).collect();
+    if linked.is_empty() {
+        return None;
+    }
+    let take = |rng: &mut Rng, k: usize| -> Vec<u32> {
+        let mut f = free.clone();
+        rng.shuffle(&mut f);
+        let mut v: Vec<u32> = f.into_iter().take(k).collect();
+        // wrong counts / unusable spares now and then
+        while v.len() < k {
+            v.push(if rng.chance(0.5) { 0 } else { *rng.pick(&linked) });
+        }
+        v
+    };
+    let pe = s.partition(1);
+    let pf = s.partition(2);
+    let e_any = *rng.pick(&linked);
+    let inner: Vec<u32> = linked.iter().copied().filter(|&d| s.b(2, d) != 0).collect();
+    let outer: Vec<u32> = linked.iter().copied().filter(|&d| s.b(2, d) == 0).collect();
+    let edge_id = |d: u32| if rng_coin(d) { pe[d as usize] } else { d };
+    let w = which.unwrap_or_else(|| rng.below(11));
+    Some(match w {
+        0 => Op::Swap { e: edge_id(if inner.is_empty() { e_any } else { *rng.pick(&inner) }) },
+        1 => {
+            let e = if !inner.is_empty() && rng.chance(0.9) { *rng.pick(&inner) } else { e_any };
+            let v = take(rng, 6);
+            Op::CutInner { e: pe[e as usize], nd: [v[0], v[1], v[2], v[3], v[4], v[5]] }
+        }
+        2 => {
+            let e = if !outer.is_empty() && rng.chance(0.9) { *rng.pick(&outer) } else { e_any };
+            let v = take(rng, 3);
+            Op::CutOuter { e, nd: [v[0], v[1], v[2]] }
+        }
+        3 => Op::Collapse { e: pe[e_any as usize] },
+        4 => {
+            let v = take(rng, 2);
+            let t = match rng.below(5) {
+                0 => None,
+                1 => Some(if rng.chance(0.5) { 0.0f64 } else { 1.5 }.to_bits()),
+                _ => Some((0.1 + 0.8 * rng.unit()).to_bits()),
+            };
+            Op::InsertVertex { e: pe[e_any as usize], nd: (v[0], v[1]), t }
+        }
+        5 => {
+            let k = 1 + rng.below(3);
+            let cnt = if rng.chance(0.9) { 2 * k } else { 2 * k + 1 };
+            let nd = take(rng, cnt);
+            let mut ts: Vec<f64> = (0..k).map(|_| 0.05 + 0.9 * rng.unit()).collect();
+            ts.sort_by(|a, b| a.partial_cmp(b).unwrap());
+            if rng.chance(0.05) {
+                ts[0] = -0.5;
+            }
+            Op::InsertVertices { e: pe[e_any as usize], nd, ts: ts.iter().map(|t| t.to_bits()).collect() }
+        }
+        6..=9 => {
+            let f = pf[e_any as usize];
+            let len = s.face_walk(f, true).fwd.len();
+            let need = if len >= 3 { 2 * (len - 3) } else { 0 };
+            let k = if rng.chance(0.9) { need } else { need + 1 };
+            let nd = take(rng, k);
+            match w {
+                6 => Op::Fan { f, nd },
+                7 => Op::FanConvex { f, nd },
+                8 => Op::EarclipCcw { f, nd },
+                _ => Op::EarclipCw { f, nd },
+            }
+        }
+        _ => {
+            let pv = s.partition(0);
+            let vid = pv[e_any as usize];
+            let mut others: Vec<u32> = s.orbit(Policy::Vertex, vid).iter().map(|&d| pv[s.b(1, d) as usize]).filter(|&x| x != 0).collect();
+            others.sort_unstable();
+            others.dedup();
+            Op::MoveToAverage { vid, others }
+        }
+    })
+}
+
+fn rng_coin(d: u32) -> bool {
+    crate::prng::mix64(u64::from(d) ^ 0x77) % 8 != 0
 }
